@@ -1,12 +1,13 @@
 #!/bin/sh
 # seed_try_all.sh <Cxx> [check-id]: run the check against m1..m3 (foreground only: patches /repo temporarily), keep them
 ID=$1; CK=${2:-$1}
+SEEDROOT=${SEEDROOT:-/tmp/seed}; export SEEDROOT SEEDTAG
 cd /verif
 for m in m1 m2 m3; do
-  [ -d /tmp/seed/$ID/$m ] || continue
-  out=$(tools/try_seed.sh /tmp/seed/$ID/$m/patch.diff $CK 2>&1); rc=$(echo "$out" | grep -o "rc=[0-9]*$" | tail -1)
+  [ -d $SEEDROOT/$ID/$m ] || continue
+  out=$(tools/try_seed.sh $SEEDROOT/$ID/$m/patch.diff $CK 2>&1); rc=$(echo "$out" | grep -o "rc=[0-9]*$" | tail -1)
   sig=$(echo "$out" | grep "signature:" | head -1 | sed 's/^ *signature: //')
   echo "$ID $m $rc sig=[$sig]"
-  if [ "$rc" = "rc=1" ]; then tools/keep_seed.py $ID $m /tmp/seed/$ID/confirm.log yes "./check $CK quick: VIOLATION signature $sig" >/dev/null
-  else tools/keep_seed.py $ID $m /tmp/seed/$ID/confirm.log no "./check $CK quick: $rc (not detected)" >/dev/null; fi
+  if [ "$rc" = "rc=1" ]; then tools/keep_seed.py $ID $m $SEEDROOT/$ID/confirm.log yes "./check $CK quick: VIOLATION signature $sig" >/dev/null
+  else tools/keep_seed.py $ID $m $SEEDROOT/$ID/confirm.log no "./check $CK quick: $rc (not detected)" >/dev/null; fi
 done
